@@ -3,6 +3,9 @@ From Coq Require Import NArith List Bool.
 From OQ3 Require Import gen.Templates Model.Accept.
 Import ListNotations.
 
-Lemma pairs_compose_block : forallb (fun '(i, j) => k_c16 i j || composes_block i j) id_pairs = true.
+Lemma pairs_compose_block : forallb (fun '(i, j) => k_c16_block i j || composes_block i j) id_pairs = true.
 Proof. vm_compute. reflexivity. Qed.
 
+
+Lemma trailing_anon_block_refuted : composes_block T_decl_int T_anon_block = false.
+Proof. vm_compute. reflexivity. Qed.
